@@ -46,7 +46,7 @@ func streamBuffer(r *Run) {
 	}
 	defer os.RemoveAll(dir)
 	h := &bufHarness{r: r, dir: dir}
-	nCases := 24 * r.Scale
+	nCases := 18 * r.Scale
 	for c := 0; c < nCases; c++ {
 		h.history(c)
 	}
@@ -69,6 +69,8 @@ type bufHarness struct {
 	onlySl  bool     // only length-prefixed writes since the last Reset
 	maxSz   int
 	stopped bool // a failure was reported for this buffer
+	quiet   int  // >0: log the bookkeeping only every quiet-th call (sorter set-up); the oracle still runs every time
+	nState  int
 }
 
 func fnv64(parts ...[]byte) uint64 {
@@ -180,7 +182,10 @@ func (h *bufHarness) release() {
 // state logs the bookkeeping and checks the reference.
 func (h *bufHarness) state() {
 	st := h.b.VerifState()
-	h.r.Emit("st %d %d %s", h.b.LenNoPadding(), st.CurSz, modeName(st.BufType))
+	h.nState++
+	if h.quiet <= 1 || h.nState%h.quiet == 0 {
+		h.r.Emit("st %d %d %s", h.b.LenNoPadding(), st.CurSz, modeName(st.BufType))
+	}
 	if h.stopped {
 		return
 	}
@@ -625,21 +630,26 @@ func (h *bufHarness) sorter() {
 	r := h.r
 	// 0 and 1 come last on purpose: a broken chunking of a single slice ends in
 	// log.Fatal (assert), which kills the process; the larger counts report first.
-	counts := []int{2, 3, 17, 1023, 1024, 1025, 2047, 2048, 2049, 5000, 1, 0}
-	if r.Scale >= 6 {
+	// Quick (scale < 4): every count once, the comparison function rotating with the seed;
+	// thorough: the full cross product, 5000 and more counts around the chunk boundaries.
+	counts := []int{2, 3, 17, 1023, 1024, 1025, 2047, 2048, 2049, 1, 0}
+	if r.Scale >= 4 {
 		counts = []int{2, 3, 17, 500, 1023, 1024, 1025, 2047, 2048, 2049, 3071, 3072, 3073, 4096, 4097, 5000, 7777, 1, 0}
 	}
 	for ci, n := range counts {
 		for li, ls := range bufLesses {
-			if h.sortCase(n, ls, (ci+li)%3, (ci*len(bufLesses)+li)%4) {
+			if r.Scale < 4 && (ci+int(r.Seed))%len(bufLesses) != li {
+				continue
+			}
+			if h.sortCase(n, ls, (ci+li)%3, (ci*len(bufLesses)+li+int(r.Seed))%4) {
 				return // a failure was reported; the remaining cases would only repeat it
 			}
 		}
 	}
 	// many small random cases, sub-ranges, repeated sorts
-	for i := 0; i < 12*r.Scale; i++ {
+	for i := 0; i < 10*r.Scale; i++ {
 		n := r.Rng.Intn(40)
-		if r.Rng.Intn(6) == 0 {
+		if r.Scale >= 4 && r.Rng.Intn(6) == 0 {
 			n = 1000 + r.Rng.Intn(1200)
 		}
 		if h.sortCase(n, bufLesses[r.Rng.Intn(len(bufLesses))], r.Rng.Intn(3), r.Rng.Intn(4)) {
@@ -668,6 +678,8 @@ func (h *bufHarness) sortCase(n int, ls bufLess, kindIdx, gen int) bool {
 	r.Cases++
 	h.desc += fmt.Sprintf(" sorter n=%d gen=%d", n, gen)
 	perm := r.Rng.Perm(n)
+	h.quiet = 64
+	defer func() { h.quiet = 0 }()
 	for i := 0; i < n && !h.stopped; i++ {
 		var p []byte
 		switch gen {
@@ -693,9 +705,11 @@ func (h *bufHarness) sortCase(n int, ls bufLess, kindIdx, gen int) bool {
 			h.op("wslice", p)
 		}
 	}
+	h.quiet = 0
 	if h.stopped {
 		return true
 	}
+	h.state()
 	h.dump()
 	if n > 1024 {
 		r.Nontriv++
